@@ -22,6 +22,7 @@ import taskchain.utils.io as _tc_io  # noqa: E402
 
 _tc_io.progress_bar = lambda data, **kw: data
 
+RUNSEQ = [0]  # process-wide run counter (never reset: run records must identify the run that produced a result)
 RUNLOG = []  # one entry per run invocation of a generated task, appended when the body finishes or raises
 CTRL = {'raise': None, 'bad': {}}  # fault plan of the current step (see body())
 
@@ -131,12 +132,17 @@ def body(task, ins, params):
             'i': {k: (_totree(spec['input_kinds'].get(k), v)) for k, v in ins.items()}}
     entry = {'obj': id(task), 'slug': spec['slug'], 'fullname': task.fullname, 'tree': tree, 'raised': False,
              'key': _safe_key(task)}
+    RUNSEQ[0] += 1
+    seq = RUNSEQ[0] * 100000 + (__import__('os').getpid() % 100000)
     for i, msg in enumerate(spec.get('logs', ['m0', 'm1'])):
-        seq = len(RUNLOG)
         task.logger.info(f'USER {spec["slug"]} run#{seq} {msg}')
         if task._config is not None:
             task.save_to_run_info({'rec': i, 'run': seq})
-    entry['seq'] = len(RUNLOG)
+    entry['seq'] = seq
+    try:
+        entry['param_reprs'] = {p.name: p.value_repr() for p in task.params.values()}
+    except Exception:  # noqa
+        entry['param_reprs'] = None
     plan = CTRL.get('raise')
     if plan is not None and _matches(plan, task, tree):
         entry['raised'] = True
